@@ -2,7 +2,7 @@
    ever delivered.  This file only states the theorems and closes them with the
    lemmas of C03_proofs.v; see DESIGN.md section 5 (C03). *)
 From TV.Lib Require Import Base.
-From TV.Link Require Import Model Facts C03_proofs.
+From TV.Link Require Import Model Facts C03_proofs C08_proofs C14_proofs C03_flow.
 Open Scope N_scope.
 
 (* A message sent while its direction is explicitly partitioned is in no
@@ -44,6 +44,23 @@ Theorem c03_reverse_untouched : forall g l d,
   dir_view (fin (step g l (RepairOne d))) (flip d) = dir_view l (flip d).
 Proof. intros; split; [apply c03_reverse_untouched_lemma|apply c03_repair_untouched_lemma]. Qed.
 
+(* Keeps flowing: with fail_rate 0 (no random coin comes up), a message sent on
+   a direction that is not explicitly partitioned at that moment -- in
+   particular after an explicit repair -- and not partitioned while in flight,
+   is in the destination's delivery sequence (already handed over, or ready for
+   its next turn) as soon as the link clock has passed its delivery instant.
+   Together with c08_at_most_once: delivered exactly once. *)
+Theorem c03_flows_again : forall d g es1 id x p es2,
+  let s := Send d id x false p in
+  Forall c03_alphabet (es1 ++ s :: es2) -> Forall no_rand (es1 ++ s :: es2) ->
+  explicit es1 d = false ->
+  Forall (fun e => partitions e d = false) es2 ->
+  let r1 := run_d d g init es1 in
+  let r := run_d d g init (es1 ++ s :: es2) in
+  lnow (fin r1) + delay (gfin r1) (fin r1) x <= lnow (fin r) ->
+  In id (seq_d d (outs r) (fin r)).
+Proof. exact c03_flows_again_lemma. Qed.
+
 (* Non-vacuity: the hypotheses are met by a real history, and the same history
    without the partition does deliver the message. *)
 Definition g0 := {| lmin := 0; lmax := 100 * ms |}.
@@ -66,4 +83,5 @@ Print Assumptions c03_never_delivered.
 Print Assumptions c03_inflight_dropped.
 Print Assumptions c03_state_invariant.
 Print Assumptions c03_reverse_untouched.
+Print Assumptions c03_flows_again.
 Print Assumptions c03_nonvacuous.
